@@ -49,6 +49,7 @@ def main(chk):
     zconst: float = 7.0
     rng: bool = False
     nop: bool = False
+    strsel: bool = False      # rendering: a single selected collection is named by a plain string instead of a list
 
     @nn.compact
     def __call__(self, x, z, ct):
@@ -56,7 +57,7 @@ def main(chk):
       prim = (x, z) if self.nin == 2 else (x,)
       zc = self.zconst
       f = (lambda m, a, b: m(a, b)) if self.nin == 2 else (lambda m, a: m(a, jnp.asarray(zc)))
-      sel = list(self.sel) if self.sel else False
+      sel = (self.sel[0] if (self.strsel and len(self.sel) == 1) else list(self.sel)) if self.sel else False
       if self.mode == 'init':
         return f(inner, *prim)
       if self.mode == 'vjp':
@@ -106,7 +107,8 @@ def main(chk):
     x, z, ct = jnp.asarray(float(cfg['x'])), jnp.asarray(float(cfg['z'])), jnp.asarray(float(cfg['ct']))
     variables = jax.tree_util.tree_map(lambda v: v, base_vars)
     variables = {**variables, 'st': {'Inner_0': {'cnt': jnp.asarray(float(cfg['cnt0']))}}}
-    m = Outer(mode=cfg['mode'], sel=tuple(cfg['sel']), aux=cfg['aux'], nin=cfg['nin'], zconst=float(cfg['z']), rng=cfg['rng'], nop=cfg['nop'])
+    m = Outer(mode=cfg['mode'], sel=tuple(cfg['sel']), aux=cfg['aux'], nin=cfg['nin'], zconst=float(cfg['z']), rng=cfg['rng'], nop=cfg['nop'],
+              strsel=(n % 2 == 1))
     rngs = {'drop': jax.random.key(9)}
     noise = 0.0
     if cfg['rng']:
